@@ -151,6 +151,20 @@ type ClassPart struct {
 type ScriptTemplate struct {
 	Name string
 	Body string // JavaScript using the parameter x
+	// Sig is the spelling of the parameter list: 0 `(x string)`, 1 `(x, y string)`
+	// (Go's grouped form), 2 `(x string, y string)`, 3 `(x string, y int)`. With
+	// a second parameter every call passes a constant second argument.
+	Sig int
+}
+
+// ScriptParams is the parameter list as written in the template.
+func (st *ScriptTemplate) ScriptParams() string {
+	return []string{"x string", "x, y string", "x string, y string", "x string, y int"}[st.Sig]
+}
+
+// ScriptArg2 is the Go text of the constant second argument ("" if none).
+func (st *ScriptTemplate) ScriptArg2() string {
+	return []string{"", `, "k"`, `, "k"`, ", 7"}[st.Sig]
 }
 
 // CSSTemplate is a file-level `css name() { prop: value; ... }` with constant properties.
